@@ -680,9 +680,6 @@ var confirmedPanicFree = map[string]string{
 	"M13b|internal/codegen.getImmediateValue|make with a run-time length": "the length is the immediate width of the matched table row (1, 2 or 4 — rule T5 for the hand-written rows, JSON rows are data of the trusted base)",
 	"M13b|internal/codegen.handleALIGNB|make with a run-time length":      "padding is smaller than the alignment unit, which pass 1 hands over as a positive int32 (processALIGNB converts and rejects the rest)",
 	// sort comparator: i, j range over allEntries[4:], the slice handed to sort.SliceStable
-	"V13|(*internal/filefmt.CoffFormat).generateSymbolEntries$1|allEntries[4 + i]": "comparator of sort.SliceStable(allEntries[4:], …) under `len(allEntries) > 4`: i < len(allEntries)-4",
-	"V13|(*internal/filefmt.CoffFormat).generateSymbolEntries$1|allEntries[4 + j]": "comparator of sort.SliceStable(allEntries[4:], …) under `len(allEntries) > 4`: j < len(allEntries)-4",
-	"V13|(*pkg/ng_operand.OperandPegImpl).resolveDependentSizes$1$1|types[targetIndex]": "targetIndex is −1, i or j (the indexes of the two enclosing lo.ForEach callbacks over types) and the store is under `targetIndex != -1`",
 	// indexes taken from the matched row of the instruction table: `#k` names an operand position of the
 	// form; the matchers accept a form only when it has as many operands as the statement (rule X13 guards
 	// that); rows of the hand-written fallback table are range-checked by rule T5; rows of the embedded
@@ -747,7 +744,18 @@ func ruleV13(c *Ctx) {
 					c.ok("V13", key, c.L.Pos(instrPos(in)), "index of a loop over "+v.over+"; rule X13: "+v.why)
 					continue
 				}
+				if why, ok := specialIndexProof(f, x, idx, b); ok {
+					auto++
+					c.ok("V13", key, c.L.Pos(instrPos(in)), why)
+					continue
+				}
 				if reason, ok := confirmedPanicFree["V13|"+strings.SplitN(key, "#", 2)[0]]; ok {
+					// a listed site stays listed only while the fact its reason rests on is still
+					// visible: the index is read from the matched row of the instruction table
+					if strings.Contains(reason, "table row") && !fromTableRow(idx, map[ssa.Value]bool{}, 0) {
+						c.fail("V13", key, c.L.Pos(instrPos(in)), "this site was accepted because its index came from the matched table row; it no longer does")
+						continue
+					}
 					c.ok("V13", key, c.L.Pos(instrPos(in)), "confirmed by reading: "+reason)
 					continue
 				}
@@ -1274,4 +1282,217 @@ func monotoneAllFlag(L *ssa.Phi, oks []*ssa.Extract) bool {
 		return true
 	}
 	return walk(L, true) && sawTrue && lowered
+}
+
+
+// fromTableRow: the value is computed from the Addend / Value / Reg / Rm text of an encoding row.
+func fromTableRow(v ssa.Value, seen map[ssa.Value]bool, depth int) bool {
+	if v == nil || seen[v] || depth > 12 {
+		return false
+	}
+	seen[v] = true
+	if fa, ok := v.(*ssa.FieldAddr); ok {
+		switch fieldName(fa) {
+		case "Addend", "Value", "Reg", "Rm":
+			if n, _ := namedOf(fa.X.Type()); n == "Opcode" || n == "Immediate" || n == "Modrm" {
+				return true
+			}
+		}
+	}
+	if in, ok := v.(ssa.Instruction); ok {
+		for _, op := range in.Operands(nil) {
+			if op != nil && *op != nil && fromTableRow(*op, seen, depth+1) {
+				return true
+			}
+		}
+	}
+	return false
+}
+
+// specialIndexProof decides two idioms that need more than a dominating comparison:
+//   (a) X[k+p] inside the comparator handed to sort.Slice*(X[k:], less): p ranges over X[k:]
+//   (b) X[t] where t is a phi of a sentinel −1 and indexes of callbacks over X itself, under `t != -1`
+func specialIndexProof(f *ssa.Function, x, idx ssa.Value, blk *ssa.BasicBlock) (string, bool) {
+	// (a)
+	if bo, ok := idx.(*ssa.BinOp); ok && bo.Op == token.ADD && f.Parent() != nil {
+		var k *ssa.Const
+		var prm *ssa.Parameter
+		for _, pair := range [][2]ssa.Value{{bo.X, bo.Y}, {bo.Y, bo.X}} {
+			if kc, ok := pair[0].(*ssa.Const); ok && isIntConst(kc) {
+				if pp, ok := pair[1].(*ssa.Parameter); ok {
+					k, prm = kc, pp
+				}
+			}
+		}
+		if k != nil && prm != nil {
+			// x is a load of a free variable; find the MakeClosure in the parent and the sort call
+			if load, ok := x.(*ssa.UnOp); ok && load.Op == token.MUL {
+				if fv, ok := load.X.(*ssa.FreeVar); ok {
+					parent := f.Parent()
+					for _, pb := range parent.Blocks {
+						for _, pin := range pb.Instrs {
+							call, ok := pin.(*ssa.Call)
+							if !ok || !strings.HasPrefix(calleeName(call.Common()), "sort.Slice") || len(call.Call.Args) != 2 {
+								continue
+							}
+							mc, ok := call.Call.Args[1].(*ssa.MakeClosure)
+							if !ok || mc.Fn != ssa.Value(f) {
+								continue
+							}
+							// binding of fv
+							var bound ssa.Value
+							for i, fvv := range f.FreeVars {
+								if fvv == fv && i < len(mc.Bindings) {
+									bound = mc.Bindings[i]
+								}
+							}
+							a0 := call.Call.Args[0]
+							if mi, ok := a0.(*ssa.MakeInterface); ok {
+								a0 = mi.X
+							}
+							sl, ok := a0.(*ssa.Slice)
+							if !ok || sl.High != nil {
+								continue
+							}
+							lk, ok := sl.Low.(*ssa.Const)
+							if !ok || !isIntConst(lk) || lk.Int64() != k.Int64() {
+								continue
+							}
+							// sl.X is a load of the same variable the closure captured
+							if l2, ok := sl.X.(*ssa.UnOp); ok && l2.Op == token.MUL && l2.X == bound {
+								return fmt.Sprintf("comparator of %s over this slice from index %d: its arguments range over that window", calleeName(call.Common()), k.Int64()), true
+							}
+						}
+					}
+				}
+			}
+		}
+	}
+	// (b)
+	if ph, ok := idx.(*ssa.Phi); ok {
+		sentinel := false
+		for _, e := range ph.Edges {
+			if kc, ok := e.(*ssa.Const); ok && isIntConst(kc) && kc.Int64() == -1 {
+				sentinel = true
+				continue
+			}
+			// an index of an indexed callback over x itself: parameter or free variable that is one
+			switch e.(type) {
+			case *ssa.Parameter, *ssa.FreeVar:
+			case *ssa.UnOp:
+			default:
+				return "", false
+			}
+			if !callbackIndexOver(f, e, x) {
+				return "", false
+			}
+		}
+		if sentinel {
+			// dominating test idx != -1
+			for _, b := range f.Blocks {
+				iff, ok := b.Instrs[len(b.Instrs)-1].(*ssa.If)
+				if !ok {
+					continue
+				}
+				bo, ok := iff.Cond.(*ssa.BinOp)
+				if !ok || bo.X != idx {
+					continue
+				}
+				kc, ok := bo.Y.(*ssa.Const)
+				if !ok || !isIntConst(kc) || kc.Int64() != -1 {
+					continue
+				}
+				edge := -1
+				switch bo.Op {
+				case token.NEQ:
+					edge = 0
+				case token.EQL:
+					edge = 1
+				}
+				if edge >= 0 && edgesDominate(f, []cfgEdge{{b, edge}}, blk) {
+					return "the index is −1 or the index of an enclosing indexed callback over this very slice, and −1 is excluded by a test", true
+				}
+			}
+		}
+	}
+	return "", false
+}
+
+// callbackIndexOver: v is (a load of a captured) index parameter of a function literal passed,
+// as last argument, to a call whose first argument is the slice x refers to — in this function
+// or in an enclosing one.
+func callbackIndexOver(f *ssa.Function, v, x ssa.Value) bool {
+	xkey := capturedName(x)
+	if xkey == "" {
+		return false
+	}
+	name := ""
+	switch e := v.(type) {
+	case *ssa.Parameter:
+		name = e.Name()
+	case *ssa.FreeVar:
+		name = e.Name()
+	case *ssa.UnOp:
+		if fv, ok := e.X.(*ssa.FreeVar); ok {
+			name = fv.Name()
+		}
+	}
+	if name == "" {
+		return false
+	}
+	// walk outwards: some enclosing function literal has a parameter of that name and was passed
+	// to a call over the slice of that name
+	for g := f; g != nil && g.Parent() != nil; g = g.Parent() {
+		isParam := false
+		for _, prm := range g.Params {
+			if prm.Name() == name {
+				isParam = true
+			}
+		}
+		if !isParam {
+			continue
+		}
+		parent := g.Parent()
+		for _, pb := range parent.Blocks {
+			for _, pin := range pb.Instrs {
+				call, ok := pin.(*ssa.Call)
+				if !ok || len(call.Call.Args) < 2 {
+					continue
+				}
+				last := call.Call.Args[len(call.Call.Args)-1]
+				mc, ok := last.(*ssa.MakeClosure)
+				if !ok {
+					if fn, ok := last.(*ssa.Function); !ok || fn != g {
+						continue
+					}
+				} else if mc.Fn != ssa.Value(g) {
+					continue
+				}
+				if capturedName(call.Call.Args[0]) == xkey {
+					return true
+				}
+			}
+		}
+	}
+	return false
+}
+
+// capturedName: the source-level variable a slice value is (parameter, captured variable or a load of one).
+func capturedName(v ssa.Value) string {
+	switch e := v.(type) {
+	case *ssa.Parameter:
+		return e.Name()
+	case *ssa.FreeVar:
+		return e.Name()
+	case *ssa.UnOp:
+		if e.Op == token.MUL {
+			switch a := e.X.(type) {
+			case *ssa.FreeVar:
+				return a.Name()
+			case *ssa.Alloc:
+				return a.Comment
+			}
+		}
+	}
+	return ""
 }
